@@ -489,24 +489,51 @@ Definition acc_key (i : inst) : list N := match i with IBlock _ k _ _ => k | ISt
 Definition acc_iv (i : inst) : list N := match i with IBlock _ _ iv _ => iv | IStream _ n => n | INone => [] end.
 
 (* ---------- who owns the argument buffers ----------
-   The model's constructors are functions of VALUES: new_crypt / new_direct cannot modify the
-   key or iv they are given, and the key is consumed there (key schedule, or copy into the
-   salsa20 arrays) - no later step reads the caller's key buffer.
-   The Go block-cipher wrappers, however, keep the caller's IV SLICE (c.iv = iv), not a copy:
-   every Encrypt / Decrypt reads the bytes that buffer holds at the time of the call.
-   [istep_env] makes that dependency explicit: ivnow is the content of the caller's IV buffer
-   when the call is made (salsa20 copied its nonce, none has no iv). *)
-Section Owner.
+   The constructors are functions of VALUES: new_crypt / new_direct cannot modify the key or
+   iv they are given; the key is consumed there (key schedule, or copy into the salsa20
+   arrays) and the instance keeps its OWN copy of the iv (since the repair 50b8642; before it
+   the block-cipher wrappers kept the caller's slice).  No step reads the caller's buffers
+   again.  To say so explicitly the caller's buffers are part of a little world in which the
+   caller may write into them between the calls. *)
+Inductive wop : Type :=
+| WCall (o : op)               (* Encrypt / Decrypt on the instance *)
+| WKey (b : list N)            (* the caller overwrites its key buffer *)
+| WIV (b : list N).            (* the caller overwrites its IV buffer *)
+
+Record world : Type := mkworld { w_key : list N; w_iv : list N; w_inst : inst }.
+
+(* NewCrypt(name, keybuf, ivbuf): the buffers are as they were *)
+Definition wnew (name keybuf ivbuf : list N) : option world :=
+  match new_crypt name keybuf ivbuf with
+  | Some i => Some (mkworld keybuf ivbuf i)
+  | None => None
+  end.
+
+Fixpoint calls (ops : list wop) : list op :=
+  match ops with
+  | [] => []
+  | WCall o :: r => o :: calls r
+  | _ :: r => calls r
+  end.
+
+Section World.
   Variable BC : cid -> list N -> list N -> list N.
   Variable KS : list N -> list N -> nat -> N.
 
-  Definition istep_env (i : inst) (ivnow : list N) (o : op) : option (list N * inst) :=
-    match i with
-    | IBlock c k iv cr =>
-        match cstep (cid_bs c) (BC c k) ivnow cr o with
-        | Some (out, cr') => Some (out, IBlock c k iv cr')
+  (* the outputs of the calls, in order; None = a call panics *)
+  Fixpoint wrun (w : world) (ops : list wop) : option (list (list N)) :=
+    match ops with
+    | [] => Some []
+    | WCall o :: r =>
+        match istep BC KS (w_inst w) o with
+        | Some (out, i') =>
+            match wrun (mkworld (w_key w) (w_iv w) i') r with
+            | Some outs => Some (out :: outs)
+            | None => None
+            end
         | None => None
         end
-    | _ => istep BC KS i o
+    | WKey b :: r => wrun (mkworld b (w_iv w) (w_inst w)) r
+    | WIV b :: r => wrun (mkworld (w_key w) b (w_inst w)) r
     end.
-End Owner.
+End World.
